@@ -447,9 +447,9 @@ func init() {
 		ID: "C30",
 		Explanation: "Decides structural necessary conditions of 'the Bison export describes the grammar the tables were built from' on the template tree of bison.go.tmpl and its Go helpers: CONSTAGREE(bison-kind): integer literals compared with .Kind equal syntax.Lookahead, and a bare %empty is printed only under that test (every other rule goes through ExprString, which keeps %prec). " +
 			"LOCKSTEP(bison-export): rules come from .Parser.RulesByNonterm and precedences from .Parser.Prec, the very slice assigned to lalr.Grammar.Precedence; left-hand sides are printed as the nonterminal's own name and references by the symbol's own text (no name rewriting that could merge symbols). " +
-			"Not decided: ExprString vs rule.RHS for mid-rule actions (a suspected mismatch, un-triaged). LOCKSTEP(bison-prec): the rule's explicit precedence agrees in its three copies: generateTables stores lalr.Rule.Precedence under expr.Kind == Prec and nothing else, and every Prec return of ExprString prints the %prec clause. FIELDCOV(reference-model): every Reference literal of package compiler sets Model, so the export prints names, not symbol numbers. AGREE(rule-value-kind): the kinds of expression that reach Rule.Value (the export prints ExprString(rule.Value)) all have a case in ExprString, whose default branch exits the process; the mid-rule-action path violates this today (known finding F30).",
-		Rules: []string{"CONSTAGREE(bison-kind)", "LOCKSTEP(bison-export)", "LOCKSTEP(bison-prec)", "FIELDCOV(reference-model)", "AGREE(rule-value-kind)"},
-		Run:   func(c *Ctx) { ruleBISON(c); ruleBISONPREC(c); ruleREFMODEL(c); ruleVALUEKIND(c) },
+			"Not decided: ExprString vs rule.RHS for mid-rule actions (a suspected mismatch, un-triaged). LOCKSTEP(bison-prec): the rule's explicit precedence agrees in its three copies: generateTables stores lalr.Rule.Precedence under expr.Kind == Prec and nothing else, and every Prec return of ExprString prints the %prec clause. FIELDCOV(reference-model): every Reference literal of package compiler sets Model, so the export prints names, not symbol numbers. AGREE(rule-value-kind): the kinds of expression that reach Rule.Value (the export prints ExprString(rule.Value)) all have a case in ExprString, whose default branch exits the process; the mid-rule-action path violates this today (known finding F30). AGREE(bison-namespace): the export prints terminals by ID and nonterminals by name, so with the option on resolver.addNonterms looks every nonterminal name up among the registered token IDs and reports a hit (otherwise one word names two symbols).",
+		Rules: []string{"CONSTAGREE(bison-kind)", "LOCKSTEP(bison-export)", "LOCKSTEP(bison-prec)", "FIELDCOV(reference-model)", "AGREE(rule-value-kind)", "AGREE(bison-namespace)"},
+		Run:   func(c *Ctx) { ruleBISON(c); ruleBISONPREC(c); ruleREFMODEL(c); ruleVALUEKIND(c); ruleBISONNS(c) },
 	})
 }
 
